@@ -15,6 +15,7 @@ sys.path.insert(0, os.path.join(VERIF, 'harness'))
 import common, effects
 
 CPU, CONV = 'synapgrad/cpu_ops.py', 'synapgrad/conv_tools.py'
+FUN, NNF, TEN = 'synapgrad/functional.py', 'synapgrad/nn/functional.py', 'synapgrad/tensor.py'
 A = 'np.arange(24.0).reshape(2, 3, 4) + 1'
 
 # (name, kind, file, old, new, probe)   probe: Python source run against the scratch tree; must print CHANGED if an operand changed
@@ -94,6 +95,47 @@ MUTANTS = [
      f"x = {A}; b = x.tobytes(); m.mean_forward(x, None, False); print('CHANGED' if x.tobytes() != b else 'same')"),
     ('conv2d_backward: grad /= 2 in the bias branch', 'bad', CPU,
      "        bias_grad = grad.sum(axis=(0,2,3))", "        grad /= 2\n        bias_grad = grad.sum(axis=(0,2,3))", None),
+    # ---- phase 2 / 3: wrappers, closures, Tensor methods (probes import the whole scratch package)
+    ('clone closure: x._grad = a_grad instead of += (a_grad IS the upstream gradient array)', 'bad', FUN,
+     "            a_grad = cpu_ops.clone_backward(grad_output.data)\n        else:\n            raise RuntimeError(f\"{grad_output.device} not supported\")\n        \n        if x.requires_grad: x._grad += a_grad",
+     "            a_grad = cpu_ops.clone_backward(grad_output.data)\n        else:\n            raise RuntimeError(f\"{grad_output.device} not supported\")\n        \n        if x.requires_grad: x._grad = a_grad",
+     "x = sg.Tensor(np.ones(3), requires_grad=True); y = x.clone(); z = (y * y); y.retain_grad(); z.backward(sg.Tensor(np.ones(3))); print('CHANGED' if np.shares_memory(x._grad, y._grad) else 'same')"),
+    ('add closure: x1._grad = a_grad instead of += (a_grad is a fresh array: no aliasing, a C03 defect, not a C11 one)', 'benign', FUN,
+     "            a_grad, b_grad = cpu_ops.add_backward(grad_output.data, x1.shape, x2.shape)\n        else:\n            raise RuntimeError(f\"{grad_output.device} not supported\")\n        \n        if x1.requires_grad: x1._grad += a_grad",
+     "            a_grad, b_grad = cpu_ops.add_backward(grad_output.data, x1.shape, x2.shape)\n        else:\n            raise RuntimeError(f\"{grad_output.device} not supported\")\n        \n        if x1.requires_grad: x1._grad = a_grad", None),
+    ('mul closure: grad_output.data *= 2', 'bad', FUN,
+     "            a_grad, b_grad = cpu_ops.mul_backward(grad_output.data, x1.data, x2.data)",
+     "            grad_output.data *= 2\n            a_grad, b_grad = cpu_ops.mul_backward(grad_output.data, x1.data, x2.data)",
+     "x = sg.Tensor(np.ones(3), requires_grad=True); y = x * x; y.retain_grad(); z = y * 3.0; z.backward(sg.Tensor(np.ones(3))); print('CHANGED' if not np.allclose(y._grad, 3.0) else 'same')"),
+    ('relu wrapper: x.data[...] = 0', 'bad', NNF,
+     "        out_data = cpu_ops.relu_forward(x.data)", "        out_data = cpu_ops.relu_forward(x.data)\n        x.data[...] = 0",
+     "import synapgrad.nn.functional as NF; x = sg.Tensor(np.ones(3)); b = x.data.tobytes(); NF.relu(x); print('CHANGED' if x.data.tobytes() != b else 'same')"),
+    ('relu wrapper: out_data = np.maximum(x.data, 0, out=x.data)', 'bad', NNF,
+     "        out_data = cpu_ops.relu_forward(x.data)", "        out_data = np.maximum(x.data, 0, out=x.data)",
+     "import synapgrad.nn.functional as NF; x = sg.Tensor(-np.ones(3)); b = x.data.tobytes(); NF.relu(x); print('CHANGED' if x.data.tobytes() != b else 'same')"),
+    ('exp wrapper: x.data = x.data * 2 (re-binding of an operand\'s data, no buffer written)', 'bad', FUN,
+     "        out_data = cpu_ops.exp_forward(x.data)", "        out_data = cpu_ops.exp_forward(x.data)\n        x.data = x.data * 2",
+     "x = sg.Tensor(np.ones(3)); x.exp(); print('CHANGED' if x.data[0] != 1.0 else 'same')"),
+    ('Tensor.backward: grad_data = grad.data (no copy)', 'bad', TEN,
+     "        grad_data = grad.data.astype(self.dtype) # own copy, in the dtype of this tensor", "        grad_data = grad.data",
+     "x = sg.Tensor(np.ones(3), requires_grad=True); g = sg.Tensor(np.ones(3)); x.backward(g); print('CHANGED' if np.shares_memory(x._grad, g.data) else 'same')"),
+    ('Tensor.backward: grad.data.astype(self.dtype, copy=False)', 'bad', TEN,
+     "        grad_data = grad.data.astype(self.dtype) # own copy, in the dtype of this tensor", "        grad_data = grad.data.astype(self.dtype, copy=False)",
+     "x = sg.Tensor(np.ones(3, dtype=np.float32), requires_grad=True); g = sg.Tensor(np.ones(3, dtype=np.float32)); x.backward(g); print('CHANGED' if np.shares_memory(x._grad, g.data) else 'same')"),
+    ('Tensor.zero_: the gradient buffer is the data array (self.grad = Tensor(self.data))', 'bad', TEN,
+     "        self.grad = Tensor(np.zeros_like(self.data), device=self.device)", "        self.grad = Tensor(self.data, device=self.device)",
+     "x = sg.Tensor(np.ones(3), requires_grad=True); x.zero_(); print('CHANGED' if np.shares_memory(x._grad, x.data) else 'same')"),
+    ('Tensor.detach returns a view (no .copy())', 'bad', TEN,
+     "        return Tensor(self.data.copy(), requires_grad=False, name=self.name, device=self.device)", "        return Tensor(self.data, requires_grad=False, name=self.name, device=self.device)",
+     "x = sg.Tensor(np.ones(3)); print('CHANGED' if np.shares_memory(x.detach().data, x.data) else 'same')"),
+    ('clone_forward returns its operand (kernel; reaches F.clone and Tensor.clone)', 'bad', CPU,
+     "    return a.copy()", "    return a",
+     "x = sg.Tensor(np.ones(3)); print('CHANGED' if np.shares_memory(x.clone().data, x.data) else 'same')"),
+    ('benign refactor of the mul closure: local renamed, expression split', 'benign', FUN,
+     "            a_grad, b_grad = cpu_ops.mul_backward(grad_output.data, x1.data, x2.data)\n        else:\n            raise RuntimeError(f\"{grad_output.device} not supported\")\n        \n        if x1.requires_grad: x1._grad += a_grad \n        if x2.requires_grad: x2._grad += b_grad",
+     "            upstream = grad_output.data\n            grads = cpu_ops.mul_backward(upstream, x1.data, x2.data)\n            ga = grads[0]\n            gb = grads[1]\n        else:\n            raise RuntimeError(f\"{grad_output.device} not supported\")\n        \n        if x1.requires_grad: x1._grad += ga\n        if x2.requires_grad: x2._grad += gb", None),
+    ('benign refactor of Tensor.detach: d = self.data.copy(); return Tensor(d, …)', 'benign', TEN,
+     "        return Tensor(self.data.copy(), requires_grad=False, name=self.name, device=self.device)", "        d = self.data.copy()\n        return Tensor(d, requires_grad=False, name=self.name, device=self.device)", None),
     # ---- benign: in-place work on arrays the kernel allocated itself; the build must stay green
     ('exp_forward: out = np.exp(a); out += 1', 'benign', CPU,
      "    return np.exp(a)", "    out = np.exp(a)\n    out += 1\n    return out", None),
@@ -106,6 +148,18 @@ MUTANTS = [
 
 def sh(cmd, **kw):
     return subprocess.run(cmd, capture_output=True, text=True, **kw)
+
+
+def theorem_at(err):
+    """name of the theorem of Props/C11.lean that contains the reported line"""
+    import re
+    m = re.search(r'C11\.lean:(\d+)', err)
+    if not m: return '?'
+    lines = open(os.path.join(common.LEAN_DIR, 'Props', 'C11.lean')).read().split('\n')
+    for i in range(int(m.group(1)) - 1, -1, -1):
+        mm = re.match(r'theorem (\S+)', lines[i])
+        if mm: return mm.group(1)
+    return '?'
 
 
 def build():
@@ -125,29 +179,26 @@ def main():
     # by other experiments running on this machine
     base = a.scratch.rstrip('/') + '-base'
     shutil.rmtree(base, ignore_errors=True)
-    os.makedirs(os.path.join(base, 'synapgrad'))
-    for r in effects.MODULES:
-        p = sh(['git', '-C', '/repo', 'show', f'HEAD:{r}'])
-        assert p.returncode == 0, p.stderr
-        open(os.path.join(base, r), 'w').write(p.stdout)
+    os.makedirs(base)
+    p = subprocess.run('git -C /repo archive HEAD synapgrad | tar -x -C ' + base, shell=True, capture_output=True, text=True)
+    assert p.returncode == 0, p.stderr
     try:
         for name, kind, rel, old, new, probe in MUTANTS:
             if a.only and not any(o in name for o in a.only):
                 continue
             t0 = time.time()
             shutil.rmtree(a.scratch, ignore_errors=True)
-            os.makedirs(os.path.join(a.scratch, 'synapgrad'))
-            for r in effects.MODULES:
-                shutil.copy(os.path.join(base, r), os.path.join(a.scratch, r))
+            shutil.copytree(base, a.scratch)
             path = os.path.join(a.scratch, rel)
             src = open(path).read()
-            assert src.count(old) == 1, (name, src.count(old))
-            open(path, 'w').write(src.replace(old, new))
+            assert src.count(old) >= 1, (name, src.count(old))
+            open(path, 'w').write(src.replace(old, new, 1))
             compile(open(path).read(), path, 'exec')
             runtime = None
             if probe:
-                code = ("import sys, warnings; warnings.simplefilter('ignore'); sys.path.insert(0, %r)\nimport numpy as np\n"
-                        "import synapgrad.cpu_ops as m, synapgrad.conv_tools as c\nassert m.__file__.startswith(%r)\n" % (a.scratch, a.scratch)) + probe
+                code = ("import sys, warnings, io; warnings.simplefilter('ignore'); sys.path.insert(0, %r); sys.path.insert(0, %r)\nimport numpy as np\n"
+                        "import synapgrad as sg, synapgrad.cpu_ops as m, synapgrad.conv_tools as c\nassert m.__file__.startswith(%r)\n"
+                        % (os.path.join(VERIF, 'harness', 'stubs'), a.scratch, a.scratch)) + probe
                 p = sh([sys.executable, '-c', code])
                 runtime = p.stdout.strip().split('\n')[-1] if p.returncode == 0 else 'probe failed: ' + p.stderr.strip().split('\n')[-1][:120]
             notes = effects.write_effect_table(root=a.scratch)
@@ -156,13 +207,13 @@ def main():
             expected_ok = kind == 'benign'
             results.append({'mutant': name, 'kind': kind, 'file': rel, 'runtime_probe': runtime, 'build_ok': ok,
                             'as_expected': ok == expected_ok,
-                            'failing_theorem': ('kernels_never_write_operands' if any('C11.lean' in e for e in errs) else None) if not ok else None,
+                            'failing_theorem': None if ok else ', '.join(theorem_at(e) for e in errs if 'C11.lean' in e),
                             'lean_errors': errs[:2], 'extractor_diagnostic': (predicted[0].split(': ', 2)[-1][:400] if predicted else None),
                             'wall_s': round(time.time() - t0, 1)})
             r = results[-1]
             print(f"[{kind:6}] {name}\n         runtime: {runtime}; lake build Props.C11: {'ok' if ok else 'FAILED'}; "
                   f"{'as expected' if r['as_expected'] else 'UNEXPECTED'} ({r['wall_s']} s)", flush=True)
-            if errs: print('         ' + errs[0][:200], flush=True)
+            if errs: print('         fails at: ' + str(r['failing_theorem']) + '   ' + str(r['extractor_diagnostic'])[:160], flush=True)
     finally:
         # back to the unchanged source
         notes = effects.write_effect_table(root=base)
